@@ -50,6 +50,42 @@ def _potential_force(ctx, cE):
     return bool(oE & (oh | ah))
 
 
+def same_parameters_in_both_forms(ctx, rule="C07.R13"):
+    """K13 (dependence monotonicity, live references vs constructor copies) between the sibling forms of one scalar force law: the attributes
+    read by the compliance routines (_c, _c_l, _c_l_dot, c_la_c) must be attributes the force / energy routines (_la_c, _la_c_l, _la_c_l_dot,
+    _E_pot) read as well."""
+    rep = ctx.rep
+    n = 0
+    for ci in ctx.model.all_classes():
+        if not ci.rel.startswith("cardillo/force_laws/") or "_c" not in ci.methods or "_la_c" not in ci.methods:
+            continue
+        n += 1
+        C = f"{ci.rel}:{ci.qual}"
+
+        def attrs(names):
+            out = {}
+            for m in names:
+                f = ci.methods.get(m)
+                if f is None:
+                    continue
+                for w in ast.walk(f):
+                    if isinstance(w, ast.Attribute) and dotted(w.value) == "self" and isinstance(w.ctx, ast.Load) and w.attr not in ci.methods:
+                        out.setdefault(w.attr, w)
+            return out
+        force = attrs(("_la_c", "_la_c_l", "_la_c_l_dot", "_E_pot"))
+        comp = attrs(("_c", "_c_l", "_c_l_dot", "c_la_c"))
+        extra = {a: w for a, w in comp.items() if a not in force}
+        if extra:
+            a, w = sorted(extra.items())[0]
+            rep.bad(rule, C, w, f"the compliance form reads self.{a}, which the force form / the energy of {ci.qual} do not read (they read {sorted(force)}): a parameter stored twice - once live, once as a "
+                    "constructor-time copy - lets the two forms of one element disagree as soon as the parameter is changed on the existing element (re-assembly does not heal it)",
+                    f"{ci.rel}:{w.lineno}")
+        else:
+            rep.ok(rule, C, f"compliance and force form read the same parameters {sorted(comp)}")
+    if n < 2:
+        raise AnalysisError(f"{rule}: fewer than 2 force laws with both forms found")
+
+
 def system_force_accumulation(ctx, rule="C07.R11"):
     rep = ctx.rep
     rel = "cardillo/system.py"
@@ -111,6 +147,8 @@ def run(ctx):
     _dirs = ("cardillo/interactions/", "cardillo/force_laws/", "cardillo/forces/", "cardillo/actuators/")
     _c26.r1_keys(ctx, _c26.find_sites(ctx), rule="C07.R10", want_cls=lambda ci: ci.rel.startswith(_dirs))
     _c26.handmade_memo(ctx, "C07.R10", lambda rel: rel.startswith(_dirs))
+    rep.rule("C07.R13", "force form, energy and compliance form of one law read the SAME parameter attributes (k, d, l_ref): the compliance routines use no constructor-time copy derived from them (1 / k stored once), or changing a parameter of an existing element makes c(la_c(state)) != 0 and the transmitted force differ from dE_pot/dl", 2)
+    same_parameters_in_both_forms(ctx)
     rep.rule("C07.R12", "a force law re-derives its DOF tables on EVERY assembly: it runs its subsystem's assembler_callback unconditionally before copying qDOF / uDOF (a stale copy makes System.E_pot read, and System.h / W_c scatter to, coordinates that are no longer the element's)", 2)
     from .c14 import r13_subsystem_first
     r13_subsystem_first(ctx, rule="C07.R12", want=lambda rel: rel.startswith("cardillo/force_laws/"), floor=2)
@@ -342,4 +380,9 @@ MUTANTS += [
 MUTANTS += [
     dict(id="c07-r12-seed", canary=True, what="[seeded by sub-agent] ScalarForceLawBase.assembler_callback assembles its subsystem only if it has no qDOF yet (stale DOF tables on every later assembly)", file='cardillo/force_laws/_base.py',
          old="    def assembler_callback(self):\n        self.subsystem.assembler_callback()\n", new="    def assembler_callback(self):\n        if not hasattr(self.subsystem, \"qDOF\"):\n            self.subsystem.assembler_callback()\n", expect="C07.R12"),
+]
+
+MUTANTS += [
+    dict(id="c07-r13-seed", canary=True, what="[seeded by sub-agent] Spring precomputes self.compliance = 1 / k in the constructor; the compliance form uses it, force form and energy keep reading self.k", file='cardillo/force_laws/spring.py',
+         edits=[('cardillo/force_laws/spring.py', "        self.k = k\n", "        self.k = k\n        self.compliance = 1 / k\n"), ('cardillo/force_laws/spring.py', "        return la_c / self.k + (l - self.l_ref)\n", "        return la_c * self.compliance + (l - self.l_ref)\n")], expect="C07.R13"),
 ]
